@@ -80,6 +80,23 @@ def dequeRemove {α : Type} (l : List α) (i : Nat) : Option α × List α := (l
 /-- `HashMap::remove(key)`: the removed entry (if any) and the map afterwards -/
 def mapRemove (m : Store K V) (k : K) : Option (Entry V) × Store K V := (lookup k m, eraseKey k m)
 
+/-- `map.values()` -/
+def values (m : Store K V) : List (Entry V) := m.map (·.2)
+
+/-- `deque.pop_back()` -/
+def popBack {α : Type} (l : List α) : Option α × List α := (l.getLast?, l.dropLast)
+
+/-- the stream of raw random draws: the next one (0 when exhausted, as the model's `headD 0`) and the rest -/
+def nextRand (rs : List Nat) : Nat × List Nat := (rs.headD 0, rs.tail)
+def headRand (rs : List Nat) : Nat := rs.headD 0
+
+/-- `loop { body }` with a fuel bound: `body st = (break?, st')` -/
+def loopFuel {σ : Type} : Nat → σ → (σ → Bool × σ) → σ
+  | 0, st, _ => st
+  | n + 1, st, body =>
+    let r := body st
+    if r.1 then r.2 else loopFuel n r.2 body
+
 /-- `HashMap::clear` / `VecDeque::clear` -/
 def clearAll {α : Type} (_l : List α) : List α := []
 
